@@ -1,7 +1,8 @@
 """C14 — spectra survive file and pickle round trips with data, mask, folding and labels.
 
-T : tools/gen_FileIO.py regenerates the writers (`Spectrum.to_file`, `Numerics.array_to_file`), the open modes and the
-    pickle reduce tuple / unpickler call from the current source (Generated/FileIO.lean).
+T : tools/gen_FileIO.py regenerates the writers (`Spectrum.to_file`, `Numerics.array_to_file`), the READERS
+    (`Spectrum.from_file`, `Numerics.array_from_file`, statement by statement), the open dispatch / modes and the pickle reduce
+    tuple / unpickler call from the current source (Generated/FileIO.lean).
 K : the text the real `to_file` / `array_to_file` write vs the generated Lean writer run on the same tokens; what the real
     `from_file` / `array_from_file` return on written AND on hand-made / mutated files (old format, mixed formats, tabs,
     CRLF, extra tokens, wrong label count, ...) vs the Lean reader model; the real reduce tuple and `Spectrum_unpickler`
@@ -11,10 +12,14 @@ L3: the property statement evaluated directly on the real code (no model): `to_f
     old format, `pickle` with every protocol, `array_to_file` -> `array_from_file`, for 1-5 dimensions with singleton axes,
     values 1e-300..1e300 / nan / +-inf / -0.0 / denormals, arbitrary masks, folded or not, labels with spaces, 0-5 comments,
     precision >= 16.
-P : the trusted parameter of the proof — `'%.{p}g' % x` is a non-empty whitespace-free token, reading it back gives a float
-    that prints to the same token (the same float for p >= 17), numpy's text parser agrees with `float()` — checked
-    numerically."""
-import os, sys, math, struct, gzip, pickle, tempfile, shutil, copyreg, itertools, io, inspect
+C : the explicit contract `FmtContract` the value theorems assume (parse(format p x) = round_p x, round_p idempotent,
+    round_p = id for p >= 17, formatted entries are tokens) validated on the real `%`-formatting and
+    numpy.fromstring with round_p computed independently in exact rational arithmetic (`contract_check`).
+P : older, coarser form of C kept as a cross-check — `'%.{p}g' % x` is a non-empty whitespace-free, quote-free token, numpy's
+    text parser agrees with `float()` on it, the same float comes back for p >= 17."""
+import os, sys, math, struct, gzip, pickle, tempfile, shutil, copyreg, itertools, io, inspect, builtins
+from fractions import Fraction
+from decimal import Decimal, localcontext, ROUND_HALF_EVEN
 import numpy as np
 from . import common
 
@@ -282,10 +287,18 @@ def corners(mask):
     return m
 
 def check_values(p, written, read):
-    """same values to the written precision: the read value prints to the same token; identical float for p >= 17"""
+    """same values to the written precision: the value read back is the double nearest to the p-significant-digit decimal nearest
+    to the value written (computed here in exact rational arithmetic, independently of printf/strtod); hence the identical float
+    for p >= 17 and a relative error below 10^(1-p).  (Not required: that the value read back PRINTS as the token written — false
+    for p = 16 next to a power of ten, e.g. 1.0000000000000001e+23 -> '1e+23' -> 9.999999999999999e+22.)"""
     for w, r in zip(written, read):
-        if fmt_tok(p, w) != fmt_tok(p, r):
-            return 'entry %r was written as %s but the value read back prints as %s' % (w, fmt_tok(p, w), fmt_tok(p, r))
+        if math.isfinite(w) and abs(w) > 1e308:
+            if fmt_tok(p, w) != fmt_tok(p, r):       # beyond the property's range: round_p may overflow; keep the token criterion
+                return 'entry %r was written as %s but the value read back prints as %s' % (w, fmt_tok(p, w), fmt_tok(p, r))
+            continue
+        e = rnd_exact(p, w)
+        if not same_float(e, r):
+            return 'entry %r was written as %s and read back as %r; the value written, to %d digits, is %r' % (w, fmt_tok(p, w), r, p, e)
         if p >= 17 and not same_float(w, r):
             return 'entry %r read back as %r at precision %d' % (w, r, p)
         if math.isfinite(w) and w != 0 and abs(r - w) > abs(w) * 10.0 ** (1 - p):
@@ -492,6 +505,186 @@ def l3_array(chk, ctx, c, tmp, masked, fileobj, seen):
         fail_once(chk, seen, 'array_rw:' + bad.split(' ')[0].rstrip(':'), 'array_to_file -> array_from_file: ' + bad, inp)
     with open(path, newline='') as f: return f.read()
 
+# ------------------------------------------------------------------ C: the explicit contract of the value theorems
+def rnd_exact(p, x):
+    """round_p x WITHOUT printf / strtod: the exact binary value of x -> the nearest decimal with p significant digits (ties to
+    even) -> the nearest double (ties to even; beyond the largest double: inf)."""
+    x = float(x)
+    if math.isnan(x) or math.isinf(x) or x == 0.0:
+        return x
+    with localcontext() as ctx:
+        ctx.prec = p; ctx.rounding = ROUND_HALF_EVEN; ctx.Emax = 999999; ctx.Emin = -999999
+        d = +Decimal(x)
+    try:
+        return float(Fraction(d))
+    except OverflowError:
+        return math.copysign(math.inf, x)
+
+def contract_values(rng, n):
+    out = list(SPECIAL)
+    for k in (-300, -200, -100, -17, -5, -1, 0, 1, 5, 15, 16, 17, 22, 23, 100, 200, 300):
+        b = float('1e%d' % k)
+        out += [b, np.nextafter(b, 0.0), np.nextafter(b, np.inf), -b]
+    for k in (-1022, -1000, -500, -53, -1, 0, 1, 52, 53, 54, 500, 996):
+        b = math.ldexp(1.0, k)
+        out += [b, float(np.nextafter(b, 0.0)), float(np.nextafter(b, np.inf))]
+    out += [math.ldexp(float(m), -1074) for m in (1, 2, 3, 7, 12345, 2 ** 51 + 1)]          # denormals
+    while len(out) < n:
+        out.append(gen_value(rng))
+    return [float(v) for v in out[:max(n, len(SPECIAL))]]
+
+def contract_check(chk, rng, n):
+    """the four fields of FmtContract (Lemmas/FileValues.lean) on the real code: fmt = '%.{p}g' % x (what numpy.savetxt / tofile
+    apply per entry), parse = numpy.fromstring(t, count=1, sep=' ') (what from_file applies), rnd = rnd_exact (independent).
+    Domain = the property's range: nan, +-inf, +-0 and finite |x| <= 1e308 (1e-300..1e300, denormals included)."""
+    seen = set()
+    for i, x in enumerate(contract_values(rng, n)):
+        if math.isfinite(x) and abs(x) > 1e308:
+            chk.stat('contract_skipped_beyond_1e308'); continue
+        for p in (16, 17, 18, 19, 20, 25, 30):
+            chk.l3(('contract', p, value_classes([x]), i % 11)); chk.stat('contract_eval')
+            t = fmt_tok(p, x)
+            r = rnd_exact(p, x)
+            bad = None
+            if t == '' or any(ch.isspace() for ch in t):
+                bad = ('tok', 'formatted entry %r is empty or contains whitespace' % t)
+            else:
+                try:
+                    y = float(np.fromstring(t, count=1, sep=' ')[0])
+                except Exception as e:
+                    y = None; bad = ('parse_fmt', 'numpy.fromstring(%r) raised %s' % (t, type(e).__name__))
+                if bad is None and not same_float(y, r):
+                    bad = ('parse_fmt', '%r written as %s reads back as %r, but the value rounded to %d digits is %r' % (x, t, y, p, r))
+                elif bad is None and not same_float(float(t), r):
+                    bad = ('parse_fmt', 'float(%r) = %r, but the value rounded to %d digits is %r' % (t, float(t), p, r))
+                elif bad is None and p >= 17 and not same_float(r, x):
+                    bad = ('exact17', '%r rounded to %d digits is %r' % (x, p, r))
+                elif bad is None and not (same_float(rnd_exact(p, r), r) and same_float(float(np.fromstring(fmt_tok(p, r), count=1, sep=' ')[0]), r)):
+                    bad = ('rnd_idem', 'rounding %r to %d digits twice gives %r then %r (written again: %s)' % (x, p, r, rnd_exact(p, r), fmt_tok(p, r)))
+                if bad is None and fmt_tok(p, r) != t:
+                    chk.stat('contract_reprint_differs_p%d' % p)      # not part of the contract: happens at p = 16 next to powers of ten
+            if bad and (bad[0], p) not in seen:
+                seen.add((bad[0], p))
+                chk.fail('fmt_contract:%s:p=%d' % (bad[0], p), 'the number-formatting contract the value theorems assume does not hold: ' + bad[1],
+                         dict(kind='contract', x=hexf(x), p=p))
+
+# ------------------------------------------------------------------ which file is opened how (K + L3)
+OPEN_NAMES = ['a.fs', 'a.gz', 'a.fs.gz', 'a.GZ', 'a.gz.fs', 'gz', '.gz', 'a.gzz', 'a..gz', 'a.gz.gz', 'a_gz', 'a.fs.Gz', 'x.gz.bak',
+              'ünï.fs.gz', 'with space.gz', 'agz', 'a.gz ', 'a.g', 'z']
+
+def open_dispatch(chk, ctx, d, tmp, seen):
+    """for file names with every kind of suffix: (L3) to_file produces a gzip stream exactly for the names ending in '.gz', the
+    content is the text a plain file gets, and from_file returns the spectrum; (K) the function and mode with which writer and
+    reader open the file (recorded by wrapping gzip.open / open inside dadi.Spectrum_mod) vs the GENERATED dispatch."""
+    dadi = ctx['dadi']; sm = dadi.Spectrum_mod
+    fs = dadi.Spectrum([0.5, 1.25, 2.0, 4.0, 0.1], mask=[True, False, True, False, True], mask_corners=False, pop_ids=['p q'], data_folded=False)
+    ref = tmp.path('.ref')
+    try:
+        fs.to_file(ref, comment_lines=['c'])
+        with open(ref, newline='') as f: ref_text = f.read()
+    except Exception:
+        ref_text = None
+    for i, name in enumerate(OPEN_NAMES):
+        sub = os.path.join(tmp.d, 'open_%d' % i); os.makedirs(sub, exist_ok=True)
+        path = os.path.join(sub, name)
+        rec = {'w': [], 'r': []}
+        phase = ['w']
+        real_gz = gzip.open
+        def rgz(f, mode='rb', *a, **k):
+            rec[phase[0]].append(('gzip.open', mode)); return real_gz(f, mode, *a, **k)
+        def rop(f, mode='r', *a, **k):
+            rec[phase[0]].append(('open', mode)); return builtins.open(f, mode, *a, **k)
+        inp = dict(kind='open', name=name)
+        chk.l3(('open', name)); chk.stat('l3_open_' + ('gz' if name.endswith('.gz') else 'plain'))
+        g = None; werr = rerr = None
+        gzip.open = rgz; sm.open = rop
+        try:
+            try:
+                fs.to_file(path, comment_lines=['c'])
+            except Exception as e:
+                werr = e
+            phase[0] = 'r'
+            if werr is None:
+                try:
+                    g = dadi.Spectrum.from_file(path, mask_corners=False)
+                except Exception as e:
+                    rerr = e
+        finally:
+            gzip.open = real_gz
+            try: del sm.open
+            except AttributeError: pass
+        if werr is not None:
+            fail_once(chk, seen, 'open_dispatch:to_file:%s' % type(werr).__name__, 'to_file(%r) raised %s: %s' % (name, type(werr).__name__, werr), inp)
+        elif rerr is not None:
+            fail_once(chk, seen, 'open_dispatch:from_file:%s' % type(rerr).__name__, 'from_file(%r) on the file to_file wrote raised %s: %s' % (name, type(rerr).__name__, rerr), inp)
+        else:
+            with open(path, 'rb') as f: raw = f.read()
+            is_gz = raw[:2] == b'\x1f\x8b'
+            bad = None
+            if is_gz != name.endswith('.gz'):
+                bad = 'compression: file %r %s a gzip stream' % (name, 'is' if is_gz else 'is not')
+            else:
+                try:
+                    text = (gzip.decompress(raw) if is_gz else raw).decode('utf-8')
+                except Exception as e:
+                    text = None; bad = 'content: not readable as %s text (%s)' % ('gzip' if is_gz else 'plain', type(e).__name__)
+                if bad is None and ref_text is not None and text != ref_text:
+                    bad = 'content: differs from the text written under a plain name'
+                elif bad is None and not (tuple(g.shape) == (5,) and same_floats(g.data, fs.data) and np.ma.getmaskarray(g).tolist() == [True, False, True, False, True]
+                                          and g.pop_ids == ['p q'] and not g.folded):
+                    bad = 'roundtrip: the spectrum read back differs'
+            if bad:
+                fail_once(chk, seen, 'open_dispatch:' + bad.split(':')[0], 'to_file/from_file(%r): %s' % (name, bad), inp)
+        if d is not None and d.ok():
+            out = d.ask('c14.open ' + X(name)).split(' ')
+            model_w, model_r = (out[1], out[2]), (out[3], out[4])
+            if werr is None and rec['w'][:1] == [model_w]: chk.k_ok('open_dispatch')
+            elif werr is None: chk.k_bad('open_dispatch', inp, rec['w'], out, 'writer opens the file differently')
+            if werr is None and rerr is None:
+                if rec['r'][:1] == [model_r]: chk.k_ok('open_dispatch')
+                else: chk.k_bad('open_dispatch', inp, rec['r'], out, 'reader opens the file differently')
+
+# ------------------------------------------------------------------ cross-reading (L3)
+def l3_cross(chk, ctx, c, tmp, seen):
+    """files of the generic array writer read by Spectrum.from_file, pre-1.3 Spectrum files read by array_from_file"""
+    dadi = ctx['dadi']
+    vals = case_vals(c); p = c['precision']; n = len(vals)
+    lay = c.get('layout') or {}
+    inp = dict(kind='cross', case=c)
+    chk.l3(case_key(c, 'cross')); chk.stat('l3_cross')
+    arr = lay_out(np.array(vals, dtype=float).reshape(c['shape']), lay.get('data', 'C'), int(lay.get('seed', 0)))
+    path = tmp.path('.txt')
+    try:
+        dadi.Numerics.array_to_file(arr, path, precision=p, comment_lines=list(c['comments']))
+        g, coms = dadi.Spectrum.from_file(path, mask_corners=False, return_comments=True)
+        g2 = dadi.Spectrum.from_file(path)
+    except Exception as e:
+        fail_once(chk, seen, 'cross:array_to_spectrum:%s' % type(e).__name__, 'array_to_file -> Spectrum.from_file raised %s: %s' % (type(e).__name__, e), inp)
+        g = None
+    if g is not None:
+        bad = None
+        if tuple(g.shape) != tuple(c['shape']): bad = 'shape %r' % (tuple(g.shape),)
+        elif check_values(p, vals, np.asarray(g.data, dtype=float).ravel().tolist()): bad = 'values: ' + check_values(p, vals, np.asarray(g.data, dtype=float).ravel().tolist())
+        elif g.folded or g.pop_ids is not None: bad = 'flags: folded %r, pop_ids %r for a plain array file' % (g.folded, g.pop_ids)
+        elif np.ma.getmaskarray(g).any() or np.ma.getmaskarray(g2).ravel().tolist() != corners([False] * n): bad = 'mask: not (nothing | exactly the corners) masked'
+        elif coms != [s_.strip() for s_ in c['comments']]: bad = 'comments %r' % (coms,)
+        if bad:
+            fail_once(chk, seen, 'cross:array_to_spectrum:' + bad.split(' ')[0].rstrip(':'), 'array_to_file -> Spectrum.from_file: ' + bad, inp)
+    fs = mk_spec(dadi, c)
+    path = tmp.path('.fs')
+    try:
+        fs.to_file(path, precision=p, comment_lines=list(c['comments']), foldmaskinfo=False)
+        b, coms = dadi.Numerics.array_from_file(path, return_comments=True)
+    except Exception as e:
+        fail_once(chk, seen, 'cross:old_to_array:%s' % type(e).__name__, 'to_file(foldmaskinfo=False) -> array_from_file raised %s: %s' % (type(e).__name__, e), inp)
+        return
+    bad = None
+    if tuple(b.shape) != tuple(c['shape']): bad = 'shape %r' % (tuple(b.shape),)
+    elif check_values(p, vals, np.asarray(b, dtype=float).ravel().tolist()): bad = 'values: ' + check_values(p, vals, np.asarray(b, dtype=float).ravel().tolist())
+    elif coms != [s_.strip() for s_ in c['comments']]: bad = 'comments %r' % (coms,)
+    if bad:
+        fail_once(chk, seen, 'cross:old_to_array:' + bad.split(' ')[0].rstrip(':'), 'to_file(foldmaskinfo=False) -> array_from_file: ' + bad, inp)
+
 # ------------------------------------------------------------------ P: the trusted parameter
 def param_check(chk, rng, n):
     seen = set()
@@ -507,7 +700,6 @@ def param_check(chk, rng, n):
                 y = float(t)
                 z = float(np.fromstring(t, count=1, sep=' ')[0])
                 if not same_float(y, z): bad = 'numpy reads %r as %r, float() as %r' % (t, z, y)
-                elif fmt_tok(p, y) != t: bad = '%r -> %s -> %r -> %s' % (x, t, y, fmt_tok(p, y))
                 elif p >= 17 and not same_float(x, y): bad = '%r -> %s -> %r at precision %d' % (x, t, y, p)
             if bad and ('fmt', p) not in seen:
                 seen.add(('fmt', p))
@@ -532,6 +724,21 @@ def k_primitives(chk, d, rng, tier):
         out = d.ask('c14.strip ' + X(s))
         if out.startswith('ok ') and unX(out[3:]) == s.strip(): chk.k_ok('strip')
         else: chk.k_bad('strip', s, s.strip(), out, 'str.strip()')
+    charsets = [None, '# ', '"', 'ab#', ' \t', 'x.', '#']
+    for i in range(n):
+        s = ''.join(alphabet[int(rng.integers(len(alphabet)))] for _ in range(int(rng.integers(0, 12))))
+        cs = charsets[int(rng.integers(len(charsets)))]
+        for kind, fn in (('l', str.lstrip), ('r', str.rstrip), ('b', str.strip)):
+            want = fn(s) if cs is None else fn(s, cs)
+            out = d.ask('c14.stripx %s %s %s' % (kind, 'none' if cs is None else X(cs), X(s)))
+            if out.startswith('ok ') and unX(out[3:]) == want: chk.k_ok('strip_variants')
+            else: chk.k_bad('strip_variants', [kind, cs, s], want, out, 'str.%sstrip(%r)' % ({'l': 'l', 'r': 'r', 'b': ''}[kind], cs))
+        a = ''.join(alphabet[int(rng.integers(len(alphabet)))] for _ in range(int(rng.integers(0, 3)))) if rng.random() < 0.5 else s[len(s) - int(rng.integers(0, 3)):]
+        b = ''.join(alphabet[int(rng.integers(len(alphabet)))] for _ in range(int(rng.integers(0, 3)))) if rng.random() < 0.5 else s[:int(rng.integers(0, 3))]
+        for op, x, want in (('endswith', a, s.endswith(a)), ('startswith', b, s.startswith(b))):
+            out = d.ask('c14.%s %s %s' % (op, X(x), X(s)))
+            if out == 'ok %d' % int(want): chk.k_ok('starts_ends_with')
+            else: chk.k_bad('starts_ends_with', [op, x, s], want, out, 'str.%s' % op)
     for i in range(60 if tier == 'quick' else 300):
         k = int(rng.integers(0, 10 ** int(rng.integers(1, 12)))) if i > 12 else [0, 1, 9, 10, 11, 99, 100, 101, 1000, 12345, 10 ** 9, 999999, 5][i]
         out = d.ask('c14.fmti %d' % k)
@@ -692,6 +899,12 @@ def k_array(chk, ctx, d, tmp, c, text, masked):
     variants.append(('empty', ''))
     variants.append(('bad_dim', 'x ' + text))
     for name, t in variants:
+        k_arr_from(chk, ctx, d, tmp, t, 'array_from_file', name)
+
+def k_arr_from(chk, ctx, d, tmp, t, op, name):
+    """the real array_from_file vs the GENERATED array reader on the text `t`"""
+    dadi = ctx['dadi']
+    if True:
         path = tmp.path('.txt')
         with open(path, 'w', newline='') as f: f.write(t)
         try:
@@ -711,9 +924,9 @@ def k_array(chk, ctx, d, tmp, c, text, masked):
             elif not all(same_float(a, float(tok)) for a, tok in zip(np.asarray(impl[1], dtype=float).ravel().tolist(), unXS(tt[1]))) \
                     or impl[1].size != len(unXS(tt[1])): msg = 'values'
             elif impl[2] != unXS(tt[2]): msg = 'comments'
-        chk.stat('k_array_from_%s' % ('reject' if impl[0] == 'exc' else 'accept'))
-        if msg is None: chk.k_ok('array_from_file')
-        else: chk.k_bad('array_from_file', dict(kind='arrtext', text=t, note=name), impl[0], out[:300], msg)
+        chk.stat('k_%s_%s' % (op, 'reject' if impl[0] == 'exc' else 'accept'))
+        if msg is None: chk.k_ok(op)
+        else: chk.k_bad(op, dict(kind='arrtext', text=t, note=name), impl[0], out[:300], msg)
 
 def py_wire(v):
     """a Python value of the reduce tuple -> pyval token (numbers as hex floats = opaque tokens)"""
@@ -782,6 +995,7 @@ def run_case(chk, ctx, c, tmp, rng, seen, heavy=True):
     l3_handmade(chk, ctx, c, tmp, rng, seen)
     masked = bool(rng.random() < 0.5)
     t_arr = l3_array(chk, ctx, c, tmp, masked, bool(rng.random() < 0.3), seen)
+    l3_cross(chk, ctx, c, tmp, seen)
     if not have:
         return
     if t_plain is not None:
@@ -798,8 +1012,12 @@ def run_case(chk, ctx, c, tmp, rng, seen, heavy=True):
     if t_old is not None:
         k_tofile(chk, d, c, t_old, False, 'to_file_old')
         k_fromfile(chk, ctx, d, tmp, t_old, 'from_file_old')
+        k_arr_from(chk, ctx, d, tmp, t_old, 'array_from_file_cross', 'pre-1.3 spectrum file')
+    if t_plain is not None:
+        k_arr_from(chk, ctx, d, tmp, t_plain, 'array_from_file_cross', 'current-format spectrum file')
     if t_arr is not None:
         k_array(chk, ctx, d, tmp, c, t_arr, masked)
+        k_fromfile(chk, ctx, d, tmp, t_arr, 'from_file_cross', note='array file')
     k_pickle(chk, ctx, d, c, rng)
 
 EDGE_CASES = [
@@ -851,10 +1069,14 @@ def run(chk, ctx):
                 'has a singleton axis, folded, label kind, number of comments, precision, set of value classes present, mask trivial or not, '
                 'layout route and data/mask layouts, axis lengths all equal or not).')
     chk.unproved = [
-        "'%.{p}g' % x / strtod: that a formatted entry is a whitespace-free token which reads back to a float printing to the same token "
-        "(the same float for p >= 17) is a trusted parameter, validated numerically (P) for p in 16..30, not proved",
-        "gzip compression and the UTF-8 codec are exercised (L3, K on the decompressed text) but not modelled; only the open modes are proved to be text modes",
-        "the readers from_file / array_from_file are a hand-written Lean model tied by K (written and hand-made files), not by translation",
+        "'%.{p}g' % x / strtod: the contract FmtContract (parse(format p x) = round_p x, round_p idempotent, round_p = id for "
+        "p >= 17, formatted entries are whitespace-free tokens) is an explicit HYPOTHESIS of C14_values_to_precision / C14_array_values_to_precision; "
+        "it is validated numerically (contract_check: round_p computed in exact rational arithmetic; p in 16..30; nan, +-inf, +-0, denormals, "
+        "1e-300..1e300, random bit patterns up to 1e308), not proved",
+        "gzip compression and the UTF-8 codec are exercised (L3, K on the decompressed text) but not modelled; what is proved is that writer and reader "
+        "choose the same transport and text mode for every file name (C14_open_dispatch)",
+        "Spectrum.__new__ (construct: length checks, label count, mask_corners) is a hand-written Lean model tied by K; the readers themselves are translated",
+        "numpy.fromfile leaves the file position unspecified in the model: the translator refuses a reader that reads from fid after numpy.fromfile",
         "the pickle byte stream itself (pickle module, numpy array pickling) is trusted; the reduce tuple and the rebuild call are translated and proved",
         "numpy.fromstring with fewer entries than the header announces returns uninitialised tail entries (no error); the model rejects such files; not exercised",
     ]
@@ -870,6 +1092,8 @@ def run(chk, ctx):
             modes = d.ask('c14.modes')
             chk.notes.append('open modes read from the source (to_file gz/plain, from_file gz/plain, array_to_file, array_from_file): ' + modes)
         param_check(chk, rng, 60 if tier == 'quick' else 400)
+        contract_check(chk, rng, 250 if tier == 'quick' else 4000)
+        open_dispatch(chk, ctx, d if (d is not None and d.ok()) else None, tmp, seen)
         n = 70 if tier == 'quick' else 700
         cases = [norm_case(c) for c in EDGE_CASES] + [gen_case(rng, tier) for _ in range(n)]
         for i, c in enumerate(cases):
@@ -898,8 +1122,17 @@ def replay(chk, ctx, data):
             run_case(chk, ctx, norm_case(inp['case']), tmp, rng, seen)
         elif inp.get('kind') == 'text' and ctx['driver'] is not None:
             k_fromfile(chk, ctx, ctx['driver'], tmp, inp['text'], 'from_file_handmade', note=inp.get('note'))
+        elif inp.get('kind') == 'arrtext' and ctx['driver'] is not None:
+            k_arr_from(chk, ctx, ctx['driver'], tmp, inp['text'], 'array_from_file', inp.get('note'))
+        elif inp.get('kind') == 'cross' and 'case' in inp:
+            run_case(chk, ctx, norm_case(inp['case']), tmp, rng, seen)
         elif inp.get('kind') == 'fmt':
             param_check(chk, rng, 60)
+        elif inp.get('kind') == 'contract':
+            contract_check(chk, rng, 250)
+        elif inp.get('kind') == 'open':
+            d = ctx['driver']
+            open_dispatch(chk, ctx, d if (d is not None and d.ok()) else None, tmp, seen)
         else:
             run(chk, ctx)
     finally:
